@@ -16,7 +16,7 @@ Extraction "model.ml"
   tx_result tx_next page_result page_next writer_result reader_result ack_result
   open_step close_step
   tx_begin tx_run tx_commit f_wal ack_pages ack_skips
-  parse_from layout rd_run cur_adv aq_run aq_pending aq_contents write_position parse_position id_less
+  parse_from layout starts_fromZ rd_run cur_adv aq_run aq_pending aq_contents write_position parse_position id_less
   mon_init mon_step mon_recover chase_full hdr_of image_disk
   read_freelist read_wal write_freelists write_wal recover_image protected_page wal_lookup pred_add pred_add_all
   lock_apply run_labels thread_step lk_idle
